@@ -936,3 +936,166 @@ Proof.
   - exfalso; apply NB; reflexivity.
   - exfalso; apply NB; reflexivity.
 Qed.
+
+(* ---------------------------------------------------------------------------------------------- *)
+(** * 6. The whole trace: every interleaving of the glue's and the objects' events is balanced
+
+   The model keeps two allocators (the glue's new/malloc and the objects' Alloc) with their own block ids and does not
+   record how their events interleave in time.  The real trace is SOME interleaving; block ids are kept apart by
+   tagging (glue: 2*id, objects: 2*id+1).  Strict replay of any such interleaving succeeds and ends with an empty heap. *)
+
+Definition tag_id (t id : nat) : nat := 2 * id + t.
+Arguments tag_id : simpl never.
+Definition tag_ev (t : nat) (e : ev) : ev :=
+  match e with Alloc id b => Alloc (tag_id t id) b | Free id b => Free (tag_id t id) b | x => x end.
+
+(* c is an interleaving of a (tagged 0) and b (tagged 1) *)
+Inductive tmerge : list ev -> list ev -> list ev -> Prop :=
+| tm_nil : tmerge [] [] []
+| tm_l : forall e a b c, tmerge a b c -> tmerge (e :: a) b (tag_ev 0 e :: c)
+| tm_r : forall e a b c, tmerge a b c -> tmerge a (e :: b) (tag_ev 1 e :: c).
+Inductive hmerge : heap -> heap -> heap -> Prop :=
+| hm_nil : hmerge [] [] []
+| hm_l : forall id b ha hb h, hmerge ha hb h -> hmerge ((id, b) :: ha) hb ((tag_id 0 id, b) :: h)
+| hm_r : forall id b ha hb h, hmerge ha hb h -> hmerge ha ((id, b) :: hb) ((tag_id 1 id, b) :: h).
+
+Lemma tag_eqb_same : forall t a b, Nat.eqb (tag_id t a) (tag_id t b) = Nat.eqb a b.
+Proof. intros t a b. unfold tag_id. destruct (Nat.eqb_spec a b), (Nat.eqb_spec (2 * a + t) (2 * b + t)); try reflexivity; lia. Qed.
+Lemma tag_eqb_01 : forall a b, Nat.eqb (tag_id 0 a) (tag_id 1 b) = false.
+Proof. intros a b. unfold tag_id. apply Nat.eqb_neq. lia. Qed.
+Lemma tag_eqb_10 : forall a b, Nat.eqb (tag_id 1 a) (tag_id 0 b) = false.
+Proof. intros a b. unfold tag_id. apply Nat.eqb_neq. lia. Qed.
+
+Lemma lookup_merge_l : forall ha hb h id, hmerge ha hb h -> lookup (tag_id 0 id) h = lookup id ha.
+Proof.
+  intros ha hb h id M. induction M; cbn [lookup]; auto.
+  - rewrite tag_eqb_same. destruct (Nat.eqb id0 id); auto.
+  - rewrite tag_eqb_10. exact IHM.
+Qed.
+Lemma lookup_merge_r : forall ha hb h id, hmerge ha hb h -> lookup (tag_id 1 id) h = lookup id hb.
+Proof.
+  intros ha hb h id M. induction M; cbn [lookup]; auto.
+  - rewrite tag_eqb_01. exact IHM.
+  - rewrite tag_eqb_same. destruct (Nat.eqb id0 id); auto.
+Qed.
+Lemma remove_merge_l : forall ha hb h id, hmerge ha hb h -> hmerge (remove_id id ha) hb (remove_id (tag_id 0 id) h).
+Proof.
+  intros ha hb h id M. induction M; cbn [remove_id]; try constructor.
+  - rewrite tag_eqb_same. destruct (Nat.eqb id0 id); [exact M|constructor; exact IHM].
+  - rewrite tag_eqb_10. constructor. exact IHM.
+Qed.
+Lemma remove_merge_r : forall ha hb h id, hmerge ha hb h -> hmerge ha (remove_id id hb) (remove_id (tag_id 1 id) h).
+Proof.
+  intros ha hb h id M. induction M; cbn [remove_id]; try constructor.
+  - rewrite tag_eqb_01. constructor. exact IHM.
+  - rewrite tag_eqb_same. destruct (Nat.eqb id0 id); [exact M|constructor; exact IHM].
+Qed.
+
+Lemma replay_ev_merge_l : forall ha hb h e ha1, hmerge ha hb h -> replay_ev ha e = Some ha1 ->
+  exists h1, replay_ev h (tag_ev 0 e) = Some h1 /\ hmerge ha1 hb h1.
+Proof.
+  intros ha hb h e ha1 M R. destruct e as [id b|id b| |c]; cbn [replay_ev tag_ev] in *.
+  - rewrite (lookup_merge_l _ _ _ id M). destruct (lookup id ha); [discriminate|]. inversion R; subst.
+    eexists; split; [reflexivity|constructor; exact M].
+  - rewrite (lookup_merge_l _ _ _ id M). destruct (lookup id ha) as [b'|]; [|discriminate].
+    destruct (Nat.eqb b b'); [|discriminate]. inversion R; subst. eexists; split; [reflexivity|apply remove_merge_l; exact M].
+  - inversion R; subst. eexists; split; [reflexivity|exact M].
+  - discriminate.
+Qed.
+Lemma replay_ev_merge_r : forall ha hb h e hb1, hmerge ha hb h -> replay_ev hb e = Some hb1 ->
+  exists h1, replay_ev h (tag_ev 1 e) = Some h1 /\ hmerge ha hb1 h1.
+Proof.
+  intros ha hb h e hb1 M R. destruct e as [id b|id b| |c]; cbn [replay_ev tag_ev] in *.
+  - rewrite (lookup_merge_r _ _ _ id M). destruct (lookup id hb); [discriminate|]. inversion R; subst.
+    eexists; split; [reflexivity|constructor; exact M].
+  - rewrite (lookup_merge_r _ _ _ id M). destruct (lookup id hb) as [b'|]; [|discriminate].
+    destruct (Nat.eqb b b'); [|discriminate]. inversion R; subst. eexists; split; [reflexivity|apply remove_merge_r; exact M].
+  - inversion R; subst. eexists; split; [reflexivity|exact M].
+  - discriminate.
+Qed.
+
+Lemma replay_merge : forall ta tb t, tmerge ta tb t -> forall ha hb h ha' hb', hmerge ha hb h ->
+  replay ta ha = Some ha' -> replay tb hb = Some hb' -> exists h', replay t h = Some h' /\ hmerge ha' hb' h'.
+Proof.
+  intros ta tb t T. induction T; intros ha hb h ha' hb' M Ra Rb; cbn [replay] in *.
+  - inversion Ra; inversion Rb; subst. eauto.
+  - destruct (replay_ev ha e) as [ha1|] eqn:E; [|discriminate].
+    destruct (replay_ev_merge_l _ _ _ _ _ M E) as [h1 [E1 M1]]. rewrite E1. eapply IHT; eauto.
+  - destruct (replay_ev hb e) as [hb1|] eqn:E; [|discriminate].
+    destruct (replay_ev_merge_r _ _ _ _ _ M E) as [h1 [E1 M1]]. rewrite E1. eapply IHT; eauto.
+Qed.
+
+Theorem interleaved_balanced : forall ta tb t, balanced ta -> balanced tb -> tmerge ta tb t -> balanced t.
+Proof.
+  intros ta tb t Ba Bb T. unfold balanced in *.
+  destruct (replay_merge ta tb t T [] [] [] [] [] hm_nil Ba Bb) as [h' [R M]]. inversion M; subst. exact R.
+Qed.
+
+(* interleavings exist: e.g. all glue events first *)
+Lemma tmerge_concat : forall ta tb, tmerge ta tb (map (tag_ev 0) ta ++ map (tag_ev 1) tb).
+Proof.
+  induction ta as [|e ta IH]; intros tb; cbn.
+  - induction tb as [|e tb IH]; cbn; constructor; auto.
+  - constructor. apply IH.
+Qed.
+
+Theorem balanced_interleaved : forall kl gt F GF calls,
+  glue_ok gt = true ->
+  valid_sequence gt cfg_fixed F GF cstate0 calls = true ->
+  Forall (wf_call kl) calls ->
+  all_released (fst (c_run gt cfg_fixed F GF cstate0 calls)) = true ->
+  forall t, tmerge (rev (trace (gm (fst (c_run gt cfg_fixed F GF cstate0 calls)))))
+                   (rev (trace (wm (cw (fst (c_run gt cfg_fixed F GF cstate0 calls)))))) t -> balanced t.
+Proof.
+  intros kl gt F GF calls G V W R t T.
+  pose proof (balanced_whole kl gt F GF calls G V W R) as H. cbv zeta in H. destruct H as [A [B _]].
+  exact (interleaved_balanced _ _ _ A B T).
+Qed.
+
+(* ---- memory safety, assembled ---- *)
+Theorem memory_safe : forall kl gt F GF cs call,
+  glue_ok gt = true -> forallb (table_checked gt) all_shapes = true ->
+  cinv kl cs -> dead cs = false -> valid_call cs call = true -> wf_call kl call -> doc_pre cs call = true ->
+  snd (c_call gt cfg_fixed F GF cs call) <> Crashed
+  /\ (forall why, snd (c_call gt cfg_fixed F GF cs call) <> Escaped why)
+  /\ dead (fst (c_call gt cfg_fixed F GF cs call)) = false
+  /\ cinv kl (fst (c_call gt cfg_fixed F GF cs call))
+  /\ (forall x, In x (twins (c_args call) (c_h call)) ->
+        (forall o, get_obj (cw cs) (target x) = Some o -> safe cfg_fixed o None x = true)
+        /\ snd (cpp_step cfg_fixed F (cw cs) x) <> UB).
+Proof.
+  intros kl gt F GF cs call G TC C D V W P.
+  destruct (call_safe kl gt F GF cs call G TC C D V W P) as [A B].
+  split; [exact A|]. split; [intros why; apply no_escape; destruct (glue_ok_struct gt G) as [_ [_ H]]; exact H|].
+  split; [exact B|]. split; [apply c_call_cinv; auto|].
+  intros x Hin. destruct (twins_safe kl cs call F x C W Hin) as [S [U _]]. split; assumption.
+Qed.
+
+(* the working tree: glue table and cfg as transcribed from the sources (tree_cfg is convertible to cfg_fixed exactly
+   when the tree contains every C20 fix: Properties_C20.C20_tree_is_fixed) *)
+Theorem balanced_tree : forall kl F GF calls,
+  valid_sequence wrappers tree_cfg F GF cstate0 calls = true ->
+  Forall (wf_call kl) calls ->
+  all_released (fst (c_run wrappers tree_cfg F GF cstate0 calls)) = true ->
+  (forall t, tmerge (rev (trace (gm (fst (c_run wrappers tree_cfg F GF cstate0 calls)))))
+                    (rev (trace (wm (cw (fst (c_run wrappers tree_cfg F GF cstate0 calls)))))) t -> balanced t)
+  /\ errs (gm (fst (c_run wrappers tree_cfg F GF cstate0 calls))) = [] /\ errs (wm (cw (fst (c_run wrappers tree_cfg F GF cstate0 calls)))) = []
+  /\ lost (gm (fst (c_run wrappers tree_cfg F GF cstate0 calls))) = [] /\ lost (wm (cw (fst (c_run wrappers tree_cfg F GF cstate0 calls)))) = []
+  /\ crashed (cw (fst (c_run wrappers tree_cfg F GF cstate0 calls))) = false.
+Proof.
+  intros kl F GF calls. change tree_cfg with cfg_fixed. intros V W R.
+  pose proof (balanced_whole kl wrappers F GF calls tree_glue_ok V W R) as H. cbv zeta in H.
+  destruct H as [A [B [_ [_ [E1 [E2 [L1 [L2 [_ [C _]]]]]]]]]].
+  split; [intros t T; exact (interleaved_balanced _ _ _ A B T)|]. repeat (split; [assumption|]). exact C.
+Qed.
+
+Lemma c_run_reach : forall kl gt F GF calls cs, c_reach kl gt F GF cs ->
+  valid_sequence gt cfg_fixed F GF cs calls = true -> Forall (wf_call kl) calls ->
+  c_reach kl gt F GF (fst (c_run gt cfg_fixed F GF cs calls)).
+Proof.
+  intros kl gt F GF calls. induction calls as [|x t IH]; intros cs R V W; cbn in *; auto.
+  apply andb_true_iff in V. destruct V as [V1 V2]. inversion W as [|? ? W1 W2]; subst.
+  pose proof (cr_call kl gt F GF cs x R V1 W1) as R1.
+  destruct (c_call gt cfg_fixed F GF cs x) as [cs' r]. cbn [fst] in *.
+  specialize (IH cs' R1 V2 W2). destruct (c_run gt cfg_fixed F GF cs' t) as [cs'' rs]. exact IH.
+Qed.
